@@ -196,6 +196,10 @@ def step (st : St) (toks : List String) : St × String :=
       let r := cstep st.catc st.cat (.split p ch)
       ({ st with cat := r.1 }, okStr r.2 ++ "\t*")
     | _, _ => (st, "bad-op")
+  | ["cat.splitfail", _, _, _] =>
+    -- a split whose child cannot be started on this store (no local replica): whatever the
+    -- split key, the call fails and the parent is rolled back — the catalog is unchanged
+    (st, "err\terr")
   | ["cat.merge", t, s] =>
     match natOf? t, natOf? s with
     | some t, some s =>
